@@ -7,13 +7,13 @@ cd "$wt" || exit 3
 git checkout -q -- . ; rm -f larking/zz_demo*_test.go larking/zz_*_test.go
 name=$(grep -o 'func Test[A-Za-z0-9_]*' "$demo" | head -1 | sed 's/func //')
 cp "$demo" larking/zz_demo_confirm_test.go
-go test -vet=off -count=1 -run "^${name}\$" ./larking/ > /tmp/wt/confirm_c.txt 2>&1; c=$?
+go test -vet=off -count=1 -run "^${name}\$" ./larking/ > $wt/confirm_c.txt 2>&1; c=$?
 rm larking/zz_demo_confirm_test.go
 git apply "$diff" || { echo "patch does not apply"; exit 3; }
 go build -tags verif ./larking/ || { echo "does not build with hooks"; }
-go test -vet=off -count=1 ./larking/ > /tmp/wt/confirm_a.txt 2>&1; a=$?
+go test -vet=off -count=1 ./larking/ > $wt/confirm_a.txt 2>&1; a=$?
 cp "$demo" larking/zz_demo_confirm_test.go
-go test -vet=off -count=1 -run "^${name}\$" ./larking/ > /tmp/wt/confirm_b.txt 2>&1; b=$?
+go test -vet=off -count=1 -run "^${name}\$" ./larking/ > $wt/confirm_b.txt 2>&1; b=$?
 rm larking/zz_demo_confirm_test.go
 git checkout -q -- .
 echo "suite_with_diff=$a (want 0) demo_with_diff=$b (want !=0) demo_without_diff=$c (want 0) test=$name"
